@@ -44,18 +44,16 @@ class Bench:
         self.fns, self.removers = {}, {}
         self.shadow = {t: set() for t in watch_types}  # harness's own view of who is subscribed
         tr = self.net.tr
-        orig_write = tr.write
         bench = self
 
-        def write(data):
+        def on_write(data):
             try:
-                for ty, _ in simnet.decode_plain(bytes(data)):
+                for ty, _ in simnet.decode_plain(data):
                     bench.events.append(("w", ty))
             except Exception:  # noqa: BLE001
                 bench.events.append(("w", -1))
-            return orig_write(data)
 
-        tr.write = write
+        tr.on_write = on_write
         self.tr = tr
         self.n_writes0 = len(tr.writes)
 
@@ -144,7 +142,7 @@ def run_scenario(ops, watch, scripts, decl, n):
                 labs = [l for w, l in b.loop.armed_timers() if abs(w - nt) < 1e-9]
                 b.loop._vt = nt
                 b.loop.fire_due()
-                b.loop.run_idle()
+                b.loop.step_one()
             lines.append("dp.tick")
         elif op[0] == "packet":
             _, t, payload = op
@@ -157,7 +155,6 @@ def run_scenario(ops, watch, scripts, decl, n):
                 obs.append(None)
                 continue
             b.net.feed(simnet.plain_raw(t, payload))
-            b.loop.run_idle()
             known = t in decl
             ok = known and decodes(decl, t, payload)
             evs = b.events[ev0:]
@@ -199,6 +196,12 @@ def run_scenario(ops, watch, scripts, decl, n):
                         bad.append(("disconnect-request-not-expected-close",
                                     f"DisconnectRequest: state={b.conn.connection_state} stops={b.stops}", t, payload))
         obs.append(b.observe(ev0, w0))
+        # plumbing scheduled by the operation (transport.close -> connection_lost(None)) runs as its own step
+        lost0 = b.tr.lost_called
+        b.loop.run_idle()
+        if b.tr.lost_called and not lost0:
+            lines.append("dp.lost")
+            obs.append(b.observe(len(b.events), 0))
     b.close()
     keep = [(l, o) for l, o in zip(lines, obs) if l is not None]
     return [l for l, _ in keep], [o for _, o in keep], bad
@@ -270,6 +273,12 @@ def gen(ck: Check, decl):
                 ops.append(("packet", t, p))
         scen.append((ops, [T1, T2, 5, 7, 36], scripts))
     return scen, n
+
+
+def pre(ck: Check):
+    import translate
+
+    translate.run()  # Props/C12 is stated over the generated registry
 
 
 def run(ck: Check):
